@@ -201,6 +201,11 @@ def c13_configs(tier):
             # two clients sharing the configuration and the cache, strictly one lookup at a time
             cfgs.append(dict(clients=["c1", "c2"], client_of={"t1": "c1", "t2": "c2"}, lookups={"t1": [0, top], "t2": [top]},
                              init_cfgs=[None], **base))
+    # a cache shared with a process that followed the other view: every complete tile of view A is on disk, the client's
+    # stored head is on A, the server presents B (tile contents of the two views meet in the client's tile reader)
+    for (p, n, h, m) in ([(2, 11, 2, 3)] if q else [(2, 11, 2, 3), (2, 7, 2, 3), (1, 7, 1, 2), (3, 13, 2, 5), (2, 15, 2, 3)]):
+        cfgs.append(dict(clients=["c1"], client_of={"t1": "c1"}, lookups={"t1": [0, 1]}, h=h, prefix=p, size_a=n, size_b=n, served={"A": n, "B": n},
+                         serve_tls=("B",), max_switch=0, init_cfgs=[("A", m)], init_disk_full=True))
     if not q:
         # smaller served heads that grow while the fork is presented
         for (p, na, nb) in [(1, 3, 3), (2, 4, 4)]:
